@@ -51,6 +51,8 @@ def gen_route_template(rng, nparams_max=2, allow_empty=False):
         else:
             segs.append(rng.choice(pool))
     sep = lambda: "/" if rng.random() < 0.85 else "//"
+    if allow_empty and rng.random() < 0.12:
+        return "/", []
     t = sep() if rng.random() < 0.9 else ""
     t += segs[0]
     for sg in segs[1:]:
@@ -63,7 +65,7 @@ def gen_route_template(rng, nparams_max=2, allow_empty=False):
 def gen_method(rng, idx, cfg, opts):
     schemes = cfg["schemes"]
     verb = rng.choice(VERBS)
-    route, pnames = gen_route_template(rng, 2 if opts.get("params", True) else 0)
+    route, pnames = gen_route_template(rng, 2 if opts.get("params", True) else 0, allow_empty=opts.get("root_routes", False))
     params = []
     if opts.get("params", True):
         if rng.random() < 0.3:
@@ -94,6 +96,9 @@ def gen_method(rng, idx, cfg, opts):
                 if loc == "form":
                     has_form = True
                 p["type"] = rng.choice(PRIMS) if rng.random() < 0.5 else "string"
+                if opts.get("enums") and rng.random() < 0.35:
+                    p["type"] = rng.choice(ENUMS)
+                    p["validator"] = None
                 if rng.random() < 0.4:
                     p["alias"] = rng.choice(["X-" + name, name + "_w", name.upper()])
                 p["validator"] = rng.choice([None, None, "required", "gte=0"]) if p["type"] not in ("string", "bool") \
@@ -209,6 +214,39 @@ def zero_value(ret):
     return {"string": '""', "int": "0", "bool": "false"}.get(ret, ret + "{}")
 
 
+ENUMS = ["Color", "Shade", "Tone", "Level"]
+ENUM_DECLS = """
+// Colours
+type Color string
+
+const (
+	ColorRed  Color = "red"
+	ColorBlue Color = "blue"
+)
+
+type Shade string
+
+const (
+	ShadeDark  Shade = "dark"
+	ShadeLight Shade = "light"
+)
+
+type Tone string
+
+const (
+	ToneWarm Tone = "warm"
+	ToneCold Tone = "cold"
+)
+
+type Level int
+
+const (
+	LevelLow  Level = 1
+	LevelHigh Level = 2
+)
+"""
+
+
 def render_method(c, m, types_pkg, method_body=None):
     lines = []
     if m["descr"]:
@@ -239,7 +277,7 @@ def render_method(c, m, types_pkg, method_body=None):
         lines.append(("// @ErrorResponse(%d) %s" % (e["code"], e["descr"])).rstrip())
 
     def qual(t):
-        for ty in ("Item",):
+        for ty in ["Item"] + ENUMS:
             if ty in t and types_pkg:
                 return t.replace(ty, types_pkg + "." + ty)
         return t
@@ -282,6 +320,8 @@ def render_project(p, root, modpath, method_body=None, extra_imports=None):
     with open(os.path.join(root, "types", "types.go"), "w") as f:
         f.write("package types\n\n// An item\ntype Item struct {\n\t// The name\n\tName string `json:\"name\" validate:\"required\"`\n"
                 "\tCount int `json:\"count\"`\n}\n")
+        if any(prm["type"] in ENUMS for c in p["controllers"] for m in c["methods"] for prm in m["params"]):
+            f.write(ENUM_DECLS)
     for pkg in pkgs:
         d = os.path.join(root, pkg)
         os.makedirs(d, exist_ok=True)
